@@ -146,6 +146,12 @@ func (g *progGen) newName() string {
 		} else if g.r.Chance(1, 3) {
 			n += fmt.Sprintf("%d", g.r.Intn(40))
 		}
+		if tries > 30 { // many names: the small vocabulary is exhausted
+			n += fmt.Sprintf("_%d", len(g.names))
+		}
+		if g.r.Chance(1, 300) { // longer than any one-byte length field
+			n += "_" + strings.Repeat("xy", 130)
+		}
 		if true {
 			up := strings.ToUpper(n)
 			if g.used[up] || isReserved(up) {
@@ -376,6 +382,9 @@ func (g *progGen) stmt() string {
 			ops[i] = g.operand()
 		}
 		mn := pick(r, handled)
+		for mn == "INT" && !r.Chance(1, 10) { // (INT with anything but a small number makes gosk panic)
+			mn = pick(r, handled)
+		}
 		if r.Chance(1, 4) { // any mnemonic the grammar knows, handled by gosk or not
 			mn = pick(r, allOpcodes)
 			for mn == "END" || mn == "TIMES" || mn == "ALIGN" {
@@ -496,6 +505,9 @@ func (g *progGen) stmt() string {
 	case 8: // INT / IN / OUT / PUSH / POP
 		switch r.Intn(6) {
 		case 0:
+			if !g.r.Chance(1, 12) { // (gosk panics on INT with a decimal operand above 127: mostly the forms real programs use)
+				return "\tINT\t" + pick(g.r, []string{"0x10", "0x13", "0x15", "0x16", "0x21", "0x80", "3", "0x1a", fmt.Sprint(g.r.Intn(128))})
+			}
 			return "\tINT\t" + g.imm(8)
 		case 1:
 			return "\tIN\tAL,DX"
@@ -675,7 +687,12 @@ func drawGenOpts(r *RNG) genOpts {
 		o.NGlobal = r.Range(1, 5)
 	}
 	if feat(r, "big_program", 1, 25) { // hundreds of statements: thresholds, batch sizes, table growth
-		o.NStmts, o.NLabels = pick(r, []int{200, 300, 500}), pick(r, []int{30, 60, 100})
+		o.NStmts, o.NLabels = pick(r, []int{200, 300, 500}), pick(r, []int{30, 60, 100, 300})
+		o.NEqu = pick(r, []int{0, 12, 70, 260})
+		if o.Coff {
+			o.NGlobal = pick(r, []int{12, 70, 260})
+			o.Extern = pick(r, []int{0, 5, 40})
+		}
 	}
 	if feat(r, "empty_image", 1, 25) { // nothing but labels, EQUs and directives: an empty image
 		o.NStmts = 0
